@@ -87,7 +87,8 @@ def run(tier, seed):
             extra.append("gojq=" + gojq)
         else:
             c.notes.append("could not build cmd/gojq for the child-process cases: " + V.tail(glog, 5))
-    n = 30000 if tier == "quick" else 900000
+    n = 30000 if tier == "quick" else 400000
+    n = int(os.environ.get("C08_N", n))
     rc, out, cases, st = V.run_harness("c08", "crash", seed, n, tier, extra=extra, timeout=3300, name="c08crash")
     st_all["crash"] = {k: v for k, v in st.items() if k not in ("failures",)}
     if rc != 0:
@@ -99,9 +100,14 @@ def run(tier, seed):
             c.failing_input("crash search: %s in stream %s" % (f.get("class", "failure"), f.get("stream", "?")), v,
                             "%s\n%s\noriginal (before minimisation): %s" % (f.get("readable", ""), f.get("detail", ""), f.get("original", "")))
         try:
+            keep = []
             with open(cases) as fh:
                 for line in fh:
                     c.note_case(line.rstrip("\n"))
+                    if len(keep) < 2000:
+                        keep.append(line)
+            with open(cases, "w") as fh:      # disk is limited: keep a sample of the case lines only
+                fh.writelines(keep)
         except OSError:
             pass
         cl = st.get("classes") or {}
@@ -112,9 +118,9 @@ def run(tier, seed):
         c.samples += [dict(stream="crash", case=s) for s in (st.get("skipped_unbounded") or [])[:4]]
     # ---- B, C, D: correspondence ---------------------------------------------------------------------------
     q = tier == "quick"
-    st_all["lr"] = model_stream(c, exe_m, "lr", 6000 if q else 200000, tier, seed)
-    st_all["flags"] = model_stream(c, exe_m, "flags", 5000 if q else 200000, tier, seed)
-    st_all["preview"] = model_stream(c, exe_m, "preview", 4000 if q else 150000, tier, seed)
+    st_all["lr"] = model_stream(c, exe_m, "lr", 6000 if q else 100000, tier, seed)
+    st_all["flags"] = model_stream(c, exe_m, "flags", 5000 if q else 60000, tier, seed)
+    st_all["preview"] = model_stream(c, exe_m, "preview", 4000 if q else 60000, tier, seed)
     if not proved:
         c.notes.append("a proof obligation broke; failing inputs were searched by the crash stream (all cases run on the "
                        "implementation under recover()/child processes) and by the lr/flags/preview streams (model verdict "
